@@ -511,6 +511,9 @@ class MP4Tags(DictProxy, Tags):
                     size = cdata.ulonglong_be(fileobj.read(12)[4:])
                     fileobj.seek(atom.offset + 8)
                     fileobj.write(cdata.to_ulonglong_be(size + delta))
+                elif size == 0:
+                    # the atom extends to the end of the file, and still does
+                    pass
                 else:  # 32bit
                     fileobj.seek(atom.offset)
                     fileobj.write(cdata.to_uint_be(size + delta))
